@@ -347,6 +347,27 @@ def rule_c(ctx):
                 attempts = math.ceil(b)
     if attempts is None:
         raise AnalysisError('C13.c: cannot extract the attempt bound of allocate_stream')
+    # the only reason to give up is that the attempts are used up: a raise decided by anything else (a count of the
+    # shared stream table, which also holds the peer's ids) fails while ids of the own parity are free
+    other = []
+    counters = set()
+    for p in paths:
+        for e in p.events:
+            if e.kind == 'store' and e.data['target'][0] == 'local' and (e.data.get('aug') == 'Add' or (
+                    isinstance(e.node, ast.Assign) and isinstance(e.node.value, ast.BinOp))):
+                counters.add(e.data['target'][1] if isinstance(e.data['target'][1], str) else e.data['target'][1][0])
+    for p in raising:
+        conds = [e for e in p.events if e.kind == 'cond' and not e.data.get('static')]
+        if not conds:
+            continue
+        node = conds[-1].node
+        names = {x.id for x in ast.walk(node) if isinstance(x, ast.Name)}
+        if not (names & counters):
+            other.append(conds[-1])
+    rep.add('C13.c', 'StreamControl.allocate_stream / gives up only when the attempts are used up', alloc, not other,
+            'every raising path is decided by the attempt counter' if not other else
+            'allocation is also refused by the test at line %s, which does not count attempts: it can fail while an '
+            'id of the endpoint\'s parity is free' % other[0].line)
     need = (mx + 1) // step
     ok = attempts >= need
     rep.add('C13.c', 'StreamControl.allocate_stream / attempt bound', alloc, ok,
